@@ -1,4 +1,5 @@
 import RegressModel.Syntax.Parse
+import Proofs.Lemmas.Parse
 /-!
 # C08 — decision lemmas about the parser model (`RegressModel/Syntax/Parse.lean`)
 
@@ -9,9 +10,9 @@ error, not a panic, not fuel exhaustion).
 Two kinds of statements:
 
 * GENERAL: for every continuation `rest` of the pattern and all 64 flag combinations
-  (`close_first_not_accepted`, `nothing_to_repeat_first_not_accepted`).  These say "not accepted"
-  (`≠ .ok _`), which is what can be shown without a termination argument for the capture-group
-  pre-scan; for the one-character patterns themselves `rejected` is proved.
+  (`close_first_rejected`, `nothing_to_repeat_first_rejected`, `unicode_lone_bracket_first_rejected`).
+  They use `Proofs/Lemmas/Parse.lean` (`parseCaptureGroups_cases`: the capture-group pre-scan returns
+  `Ok` or a syntax error; it cannot panic or run out of fuel).
 * INSTANCES: concrete patterns, for ALL 64 flag combinations unless said otherwise, by kernel
   evaluation of the model (`decide +kernel`).
 -/
@@ -56,24 +57,38 @@ theorem parseCaptureGroups_ok {st st' : PState} (h : parseCaptureGroups st = .ok
     · cases h
     · cases h; simp
 
+/-- Shape of the general proofs: if, for every state the pre-scan can return, the main descent
+fails with a syntax error, then the pattern is rejected. -/
+theorem rejected_of_descent (pattern : List Nat) (fl : Flags)
+    (h : ∀ st' : PState, st'.input = pattern →
+      st'.flags = (if fl.unicodeSets then { fl with unicode := true } else fl) → st'.depth = 0 →
+      ∃ msg, parseBody st' = .error (.syntax msg)) :
+    rejected (parse pattern fl) = true := by
+  unfold parse tryParse
+  simp only
+  rcases parseCaptureGroups_cases
+    { input := pattern, flags := if fl.unicodeSets then { fl with unicode := true } else fl }
+    with ⟨st', hst⟩ | ⟨msg, hst⟩
+  · rw [hst]
+    obtain ⟨hi, hf, hd⟩ := parseCaptureGroups_ok hst
+    obtain ⟨msg, hm⟩ := h st' hi hf hd
+    simp only
+    rw [hm]; rfl
+  · rw [hst]; rfl
+
 /-! ## `unbalanced_close_rejected` -/
 
-/-- GENERAL: a pattern that starts with `)` is never accepted, whatever follows, under any flags. -/
-theorem close_first_not_accepted (rest : List Nat) (fl : Flags) (r : Regex) :
-    parse (0x29 :: rest) fl ≠ .ok r := by
-  intro h
-  unfold parse tryParse at h
-  simp only at h
-  split at h
-  · cases h
-  · rename_i st' hst
-    obtain ⟨hi, -, hd⟩ := parseCaptureGroups_ok hst
-    simp only at hi hd
-    have hfuel : parseFuel st'.input = (4 * rest.length + 8) + 4 := by
-      rw [hi]; simp [parseFuel]; omega
-    rw [hfuel] at h
-    simp [consumeDisjunction, disjLoop, termLoop, tryConsume, makeCat, hi, hd,
-      Gen.MAX_NESTING_DEPTH, synErr] at h
+/-- GENERAL: a pattern that starts with `)` is a syntax error, whatever follows, under any flags. -/
+theorem close_first_rejected (rest : List Nat) (fl : Flags) :
+    rejected (parse (0x29 :: rest) fl) = true := by
+  apply rejected_of_descent
+  intro st' hi _ hd
+  have hfuel : parseFuel st'.input = (4 * rest.length + 8) + 4 := by
+    rw [hi]; simp [parseFuel]; omega
+  unfold parseBody
+  rw [hfuel]
+  simp [consumeDisjunction, disjLoop, termLoop, tryConsume, makeCat, hi, hd,
+    Gen.MAX_NESTING_DEPTH, synErr]
 
 /-- `)` alone is a syntax error under all flags. -/
 theorem unbalanced_close_rejected : ∀ fl : Flags, rejected (parse (pat! ")") fl) = true := by
@@ -92,24 +107,22 @@ example : ∀ fl : Flags, accepted (parse (pat! "(a)") fl) = true ∧ accepted (
 
 /-! ## `nothing_to_repeat_rejected` -/
 
-/-- GENERAL: a pattern whose first character is `*`, `+` or `?` is never accepted. -/
-theorem nothing_to_repeat_first_not_accepted (c : Nat) (hc : c = 0x2A ∨ c = 0x2B ∨ c = 0x3F)
-    (rest : List Nat) (fl : Flags) (r : Regex) : parse (c :: rest) fl ≠ .ok r := by
-  intro h
-  unfold parse tryParse at h
-  simp only at h
-  split at h
-  · cases h
-  · rename_i st' hst
-    obtain ⟨hi, -, hd⟩ := parseCaptureGroups_ok hst
-    simp only at hi hd
-    have hfuel : parseFuel st'.input = (4 * rest.length + 8) + 4 := by
-      rw [hi]; simp [parseFuel]; omega
-    rw [hfuel] at h
-    rcases hc with rfl | rfl | rfl <;>
-      simp [consumeDisjunction, disjLoop, termLoop, consumeAtom, hi, hd,
-        Gen.MAX_NESTING_DEPTH, synErr] at h
+/-- GENERAL: a pattern whose first character is `*`, `+` or `?` is a syntax error, whatever
+follows, under any flags. -/
+theorem nothing_to_repeat_first_rejected (c : Nat) (hc : c = 0x2A ∨ c = 0x2B ∨ c = 0x3F)
+    (rest : List Nat) (fl : Flags) : rejected (parse (c :: rest) fl) = true := by
+  apply rejected_of_descent
+  intro st' hi _ hd
+  have hfuel : parseFuel st'.input = (4 * rest.length + 8) + 4 := by
+    rw [hi]; simp [parseFuel]; omega
+  unfold parseBody
+  rw [hfuel]
+  rcases hc with rfl | rfl | rfl <;>
+    simp [consumeDisjunction, disjLoop, termLoop, consumeAtom, hi, hd,
+      Gen.MAX_NESTING_DEPTH, synErr] <;>
+    split <;> simp
 
+/-- Non-vacuity of the hypothesis. -/
 example : (0x2A = 0x2A ∨ 0x2A = 0x2B ∨ 0x2A = 0x3F) := by decide
 
 /-- `*`, `+`, `?` alone are syntax errors under all flags. -/
@@ -191,6 +204,26 @@ theorem lone_brace_accepted_iff_legacy : ∀ fl : Flags,
     accepted (parse (pat! "]") fl) = !uMode fl ∧ rejected (parse (pat! "]") fl) = uMode fl := by
   all_flags
 
+/-- GENERAL: under `u` or `v`, a pattern whose first character is `]`, `{` or `}` is a syntax
+error, whatever follows. -/
+theorem unicode_lone_bracket_first_rejected (c : Nat) (hc : c = 0x5D ∨ c = 0x7B ∨ c = 0x7D)
+    (rest : List Nat) (fl : Flags) (hu : uMode fl = true) : rejected (parse (c :: rest) fl) = true := by
+  apply rejected_of_descent
+  intro st' hi hfl hd
+  have hun : st'.flags.unicode = true := by
+    rw [hfl]; unfold uMode at hu
+    cases h1 : fl.unicodeSets <;> simp_all
+  have hfuel : parseFuel st'.input = (4 * rest.length + 8) + 4 := by
+    rw [hi]; simp [parseFuel]; omega
+  unfold parseBody
+  rw [hfuel]
+  rcases hc with rfl | rfl | rfl <;>
+    simp [consumeDisjunction, disjLoop, termLoop, consumeAtom, hi, hd, hun,
+      Gen.MAX_NESTING_DEPTH, synErr]
+
+/-- Non-vacuity of the hypotheses. -/
+example : uMode { unicode := true } = true ∧ (0x7B = 0x5D ∨ 0x7B = 0x7B ∨ 0x7B = 0x7D) := by decide
+
 /-- A COMPLETE braced quantifier with nothing to repeat is a syntax error in every mode. -/
 theorem braced_quantifier_without_atom_rejected : ∀ fl : Flags,
     rejected (parse (pat! "{1}") fl) = true ∧ rejected (parse (pat! "{1,2}") fl) = true ∧
@@ -245,3 +278,21 @@ example : (match parse (pat! "(?:(?<a>x)|(?<a>y))\\k<a>") {} with
     | .error _ => false) = true := by decide +kernel
 
 end Regress.C08
+
+#print axioms Regress.C08.close_first_rejected
+#print axioms Regress.C08.unbalanced_close_rejected
+#print axioms Regress.C08.unbalanced_close_rejected_instances
+#print axioms Regress.C08.nothing_to_repeat_first_rejected
+#print axioms Regress.C08.nothing_to_repeat_rejected
+#print axioms Regress.C08.nothing_to_repeat_rejected_instances
+#print axioms Regress.C08.quantified_lookbehind_rejected
+#print axioms Regress.C08.quantified_lookahead_iff_legacy
+#print axioms Regress.C08.reversed_quantifier_rejected
+#print axioms Regress.C08.single_digit_bounds
+#print axioms Regress.C08.lone_brace_accepted_iff_legacy
+#print axioms Regress.C08.unicode_lone_bracket_first_rejected
+#print axioms Regress.C08.braced_quantifier_without_atom_rejected
+#print axioms Regress.C08.dangling_named_ref_rejected_in_u
+#print axioms Regress.C08.dangling_named_ref_rejected_with_named_groups
+#print axioms Regress.C08.duplicate_name_same_alternative_rejected
+#print axioms Regress.C08.duplicate_name_different_alternatives_accepted
